@@ -337,15 +337,17 @@ fn random_mix(rng: &mut Prng, pop: Pop, cfg: &Config) -> [u32; N_KINDS] {
             m[K_INVAL_ALL] = m[K_INVAL_ALL].min(1);
         }
         Pop::SeqWide => {
-            m[K_INSERT] = 24;
-            m[K_GET] = 4;
-            m[K_CONTAINS] = 2;
-            m[K_ITER] = 1;
-            m[K_INVAL] = 1;
+            // removals and clock jumps are rare, so that more entries accumulate than one
+            // purge / eviction batch (100 on unsync) handles
+            m[K_INSERT] = 200;
+            m[K_GET] = 40;
+            m[K_CONTAINS] = 20;
+            m[K_ITER] = 4;
+            m[K_INVAL] = 8;
             m[K_INVAL_ALL] = if rng.chance(1, 3) { 1 } else { 0 };
             m[K_INVAL_IF] = if rng.chance(1, 3) { 1 } else { 0 };
-            m[K_ADVANCE] = if cfg.has_expiry() { 1 } else { 0 };
-            m[K_SYNC] = 1;
+            m[K_ADVANCE] = if cfg.has_expiry() { 2 } else { 0 };
+            m[K_SYNC] = 3;
         }
         Pop::Pair => {
             m[K_INSERT] = 6;
@@ -435,6 +437,54 @@ pub fn generate(pop: Pop, seed: u64, run: u64) -> Trace {
     let mut ops: Vec<OpRec> = Vec::new();
     let mut phase_left = 0usize;
     let mut n_real = 0usize;
+    if pop == Pop::SeqWide && ctx.rng.chance(7, 10) {
+        // scripted shape: fill more keys than one purge / eviction batch handles, make them
+        // (or a prefix of them) expire or invalidate them, then look at once at the youngest
+        let rounds = ctx.rng.range(1, 3);
+        for _ in 0..rounds {
+            let fill = ctx.rng.range(105, universe as u64) as u16;
+            let start = ctx.rng.below((universe - fill + 1) as u64) as u16;
+            for k in start..start + fill {
+                let w = ctx.weight(&cfg);
+                let vid = ctx.next_vid;
+                ctx.next_vid += 1;
+                let op = Op::Insert { k, vid, w };
+                ctx.note(&op);
+                ops.push(OpRec::plain(op));
+                if cfg.kind == Kind::Sync && ctx.rng.chance(1, 40) {
+                    ops.push(OpRec::plain(Op::Sync));
+                }
+                if cfg.has_expiry() && ctx.rng.chance(1, 60) {
+                    let op = Op::Advance { ns: *ctx.rng.pick(&[1u64, MS, 499 * MS, SEC]) };
+                    ctx.note(&op);
+                    ops.push(OpRec::plain(op));
+                }
+            }
+            let removal = match ctx.rng.below(4) {
+                0 if cfg.kind == Kind::Unsync => Op::InvalidateIf { p: Pred::KeyLt(start + fill / 2) },
+                1 => Op::InvalidateAll,
+                _ if cfg.has_expiry() => Op::Advance { ns: ctx.advance(&cfg, 5) },
+                _ => Op::Get { k: start },
+            };
+            ctx.note(&removal);
+            ops.push(OpRec::plain(removal));
+            for _ in 0..ctx.rng.range(2, 12) {
+                let k = if ctx.rng.chance(2, 3) {
+                    start + fill - 1 - ctx.rng.below(fill.min(40) as u64) as u16
+                } else {
+                    ctx.key(universe)
+                };
+                let op = match ctx.rng.below(5) {
+                    0 | 1 => Op::Get { k },
+                    2 | 3 => Op::Contains { k },
+                    _ => Op::Iter,
+                };
+                ctx.note(&op);
+                ops.push(OpRec::plain(op));
+            }
+        }
+        n_real = ops.len().min(len.saturating_sub(30));
+    }
     while n_real < len {
         if phased && phase_left == 0 {
             // fill -> remove (expire / invalidate) -> refill phases
